@@ -8,6 +8,9 @@ CLAIMED = {
  "C02": ("Bounded symbolic history (vote attempts with symbolic kind/round/index, context changes, crash+restart on the same database) over the real VoteDB code; a ghost list of signed votes decides 'at most one per kind, round, index'.",
          "Trusted: gosym, z3; signatures and RLP of VoteItem idealised (native replay uses the real ones); rounds do not go back across restarts; history length 4/5.",
          "solver-based symbolic execution of go/ssa (bv), bounded history with symbolic arguments"),
+ "C04": ("Control skeleton only: search on every monotone predicate; choose's branches with gonum's CDF as an unknown non-decreasing function (least-j quantile, 0<=j<=stake, mirrored branch); MakeM injectivity; VrfVerifySortition/VrfVerifyPriority bind key, message, stake, threshold/total and seat count under an idealised VRF; computePriority is the maximum per-seat hash.",
+         "Trusted: gosym, z3 (FloatingPoint + UF). NOT covered (the numeric heart): that gonum's float64 incomplete-beta CDF is the binomial CDF, float rounding, stakes beyond the small bound. One open known finding (zero-seat proposer).",
+         "solver-based symbolic execution of go/ssa with uninterpreted monotone CDF"),
  "C05": ("Real processDoubleSignV5/doPenalize/takePenalty on the real StateDB with an arbitrary well-typed evidence and BLS idealised behind the repo's interfaces with a signing oracle (honest: at most one hash per vote kind per round/index): honest safety, equivocation penalised once within the fraction and credited to the penalty account, takePenalty cap/conservation/non-negativity/consistency with delegations and pending withdrawals.",
          "Trusted: gosym, z3; BLS idealisation; one validator in the look-back set, two pairs. Two open known findings (duplicate pair, cross-kind).",
          "solver-based symbolic execution of go/ssa (SMT Int mode) with uninterpreted signing oracle"),
